@@ -18,4 +18,7 @@ def enum_plans(tier):
     return [dict(cfg="B", depth=7 if th else 5, maxtime=7 if th else 5, alpha=["ceaok", "dpr"], faults=True, maxconn=3),
             dict(cfg="D", depth=7 if th else 5, maxtime=7 if th else 5, alpha=["ceaok", "dpr"], faults=True, maxconn=3),
             # a DPR while a watchdog request is outstanding, and a late DWA after the DPA
-            dict(cfg="B", depth=8 if th else 7, maxtime=5 if th else 4, alpha=["ceaok", "dpr", "dwa"], faults=False, maxconn=1)]
+            dict(cfg="B", depth=8 if th else 7, maxtime=5 if th else 4, alpha=["ceaok", "dpr", "dwa"], faults=False, maxconn=1),
+            # simultaneous open: the peer the node is dialling connects in and completes its exchange first; the node's own
+            # connection is then answered (accepted or rejected) or fails: "unless it already has a connection"
+            dict(cfg="B", depth=7 if th else 6, maxtime=4 if th else 3, alpha=["cerok", "cea"], faults=False, maxconn=3)]
